@@ -65,7 +65,7 @@ var carriers = []string{"GetBlob", "GetBlobRange", "GetManifest", "GetTag", "Res
 	// errors raised by the backend's BlobWriter rather than by an Interface method ("<call>@<stage>")
 	"Writer@write", "Writer@close", "Writer@commit", "PushBlob@write", "PushBlob@commit", "Writer@write+close",
 	// the error of a method on a registry where everything else works
-	"MountBlob@only",
+	"MountBlob@only", "GetBlobRange@only",
 	// a listing that fails only when the client asks for its second page (page size 2)
 	"Tags@later-page", "Repositories@later-page",
 	// a listing that fails after the first item of a page
@@ -121,7 +121,7 @@ func call(reg ociregistry.Interface, carrier string, hops int) error {
 	case "GetBlob":
 		_, err := reg.GetBlob(ctx, "foo", dg)
 		return err
-	case "GetBlobRange":
+	case "GetBlobRange", "GetBlobRange@only":
 		_, err := reg.GetBlobRange(ctx, "foo", dg, 1, 5)
 		return err
 	case "GetManifest":
@@ -217,6 +217,15 @@ func (noCredentials) EntryForRegistry(host string) (ociauth.ConfigEntry, error) 
 	return ociauth.ConfigEntry{}, nil
 }
 
+type rangeFails struct {
+	ociregistry.Interface
+	err error
+}
+
+func (m *rangeFails) GetBlobRange(ctx context.Context, repo string, dg ociregistry.Digest, o0, o1 int64) (ociregistry.BlobReader, error) {
+	return nil, m.err
+}
+
 type mountFails struct {
 	ociregistry.Interface
 	err error
@@ -309,6 +318,11 @@ func through(s Script, n int) (observed, error) {
 			Tags_:         func(ctx context.Context, repo, startAfter string) ociregistry.Seq[string] { return later(startAfter) },
 			Repositories_: func(ctx context.Context, startAfter string) ociregistry.Seq[string] { return later(startAfter) },
 		}
+	} else if s.Carrier == "GetBlobRange@only" {
+		// a registry whose GetBlobRange, and nothing but that, fails: the blob itself is there
+		m := ocimem.New()
+		m.PushBlob(context.Background(), "foo", ociregistry.Descriptor{MediaType: "application/octet-stream", Digest: digest.FromBytes([]byte("x")), Size: 1}, strings.NewReader("x"))
+		reg = &rangeFails{Interface: m, err: before}
 	} else if s.Carrier == "MountBlob@only" {
 		// a registry on which the mount, and nothing but the mount, fails
 		reg = &mountFails{Interface: ocimem.New(), err: before}
@@ -610,7 +624,7 @@ func genScript(t *rapid.T) Script {
 var prop = &vt.Prop[Script]{
 	ID:   "C07",
 	Name: "ErrorsAcrossTheWire",
-	Rule: "error values: each of the 15 standard codes, custom codes, no code; optional JSON detail (objects, arrays, scalars, null, spaced, numbers that float64 cannot hold); messages {empty, random UTF-8, beginning with the rendered code, with a status line, with both, stuttering, odd spacing}; 0-3 wrappers from {fmt %w, NewHTTPError(status)} with statuses 400-599 incl. ones without a reason phrase (419, 452, 499, 512, 599); carrier = each of the 18 Interface methods (GET, HEAD, POST, PUT, DELETE and list-based) and errors raised by the backend's BlobWriter at Write, Close or Commit (and at Write followed by a different failure of the Close that comes after it) (reached through a chunked writer and through PushBlob), a MountBlob that fails on a registry where everything else works, and tag / repository listings that fail when the second page is asked for or after the first item of a page; sent through 1..3 real server->client hops (a quarter of the time every client goes through ociauth's standard transport without credentials and every registry puts a Basic challenge on its 401 answers), and for every hop count h <= hops; oracle = errors.Is against every standard value unchanged (HEAD carriers: the documented status mapping; ErrRangeInvalid status-based as documented), status on every hop = the specification's for the code, else the error's own HTTP status, else 500, code and detail JSON-equal, message after h hops == message after one hop; non-trivial = >= 2 hops, a wrapper, or a prefix-like message; distinct = (code, wraps, message class, carrier, hops, status)",
+	Rule: "error values: each of the 15 standard codes, custom codes, no code; optional JSON detail (objects, arrays, scalars, null, spaced, numbers that float64 cannot hold); messages {empty, random UTF-8, beginning with the rendered code, with a status line, with both, stuttering, odd spacing}; 0-3 wrappers from {fmt %w, NewHTTPError(status)} with statuses 400-599 incl. ones without a reason phrase (419, 452, 499, 512, 599); carrier = each of the 18 Interface methods (GET, HEAD, POST, PUT, DELETE and list-based) and errors raised by the backend's BlobWriter at Write, Close or Commit (and at Write followed by a different failure of the Close that comes after it) (reached through a chunked writer and through PushBlob), a MountBlob / a GetBlobRange that fails on a registry where everything else works, and tag / repository listings that fail when the second page is asked for or after the first item of a page; sent through 1..3 real server->client hops (a quarter of the time every client goes through ociauth's standard transport without credentials and every registry puts a Basic challenge on its 401 answers), and for every hop count h <= hops; oracle = errors.Is against every standard value unchanged (HEAD carriers: the documented status mapping; ErrRangeInvalid status-based as documented), status on every hop = the specification's for the code, else the error's own HTTP status, else 500, code and detail JSON-equal, message after h hops == message after one hop; non-trivial = >= 2 hops, a wrapper, or a prefix-like message; distinct = (code, wraps, message class, carrier, hops, status)",
 	Gen:  genScript,
 	Run:  run,
 }
@@ -621,7 +635,7 @@ func TestPropErrors(t *testing.T) { vt.Check(t, prop) }
 var propGrid = &vt.Prop[Script]{
 	ID:   "C07",
 	Name: "ErrorGrid",
-	Rule: "complete grid: 15 standard codes + custom + none x 29 carriers x {bare, NewHTTPError(452) wrapper} over 2 hops",
+	Rule: "complete grid: 15 standard codes + custom + none x 30 carriers x {bare, NewHTTPError(452) wrapper} over 2 hops",
 	Run:  run,
 }
 
